@@ -47,7 +47,7 @@ def check(v, tier, opts):
                     "unconstrained; thorough adds N = 4 and the remaining lengths")
     v.bounds.append("second series longer than the first by 2 (N = 1, 2; 3 thorough) with window up to N+3 on all six two-series driver "
                     "forms; partition iterators (sorted and unsorted, with padding) yield exactly their announced trusted length; a "
-                    "caller-supplied non-contiguous (step 2) ndarray out view, sentinel-filled: N = 2 (3 thorough)")
+                    "caller-supplied non-contiguous (step 2) and reversed (step -1) ndarray out views, sentinel-filled: N = 2 (3 thorough)")
     v.bounds.append("window 0: N = 2 (every fast-path override of Vec and Array1, every *_to body; kernels on Vec), N = 0 "
                     "(fast paths); second series of length N-1 at N = 2; thorough adds N in {1,3}")
     v.bounds.append("kernels: N in {1,2,3} on [T; N] (same impl_vec1! fast path as Vec, no heap object), N = 3 on DefView, "
